@@ -4,7 +4,7 @@ use proptest::collection::vec;
 use proptest::prelude::*;
 use proptest::strategy::BoxedStrategy;
 
-pub const SPECIALS: [f32; 34] = [
+pub const SPECIALS: [f32; 40] = [
     0.0,
     -0.0,
     1.0,
@@ -39,6 +39,14 @@ pub const SPECIALS: [f32; 34] = [
     -1e20,
     0.75,
     -3.0,
+    // rounding boundaries: the largest float below one half, odd integers
+    // where the spacing of floats is 1, the first float spacing of 2
+    0.49999997,
+    -0.49999997,
+    8388609.0,
+    -8388609.0,
+    16777216.0,
+    -16777216.0,
 ];
 
 pub fn fl_special() -> BoxedStrategy<Fl> {
@@ -261,6 +269,56 @@ fn fan_in(p: DagParams, nvars: u8) -> BoxedStrategy<DagSpec> {
             DagSpec { nvars, nodes }
         })
         .boxed()
+}
+
+/// Wide programs: `k` leaves that all stay live until a reverse chain consumes
+/// them (more than 256 live values need slot indices beyond a byte, whatever
+/// the register budget).  With `own_var`, leaf i reads variable i, so the
+/// function has `k` variables (more than 32 need input offsets beyond a signed
+/// byte in native code); `nvars` is then ignored.
+pub fn dag_wide(p: DagParams, nvars: std::ops::RangeInclusive<u8>, k: std::ops::RangeInclusive<usize>, own_var: bool) -> BoxedStrategy<DagSpec> {
+    let leaf = (weighted(&p.bin), any::<u16>(), p.consts.clone(), any::<bool>());
+    let link = weighted(&p.bin);
+    (nvars, vec((leaf, link), k))
+        .prop_map(move |(nvars, items)| {
+            let k = items.len();
+            let nvars = if own_var { k.min(255) as u8 } else { nvars.max(1) };
+            let nv = nvars as usize;
+            let mut nodes = vec![];
+            for (i, ((op, v, c, swap), _)) in items.iter().enumerate() {
+                nodes.push(NodeSpec::C(*c));
+                let len = nv + 2 * i + 1;
+                let ci = sel_for(len - 1, len);
+                let vi = if own_var { sel_for(i % nv, len) } else { sel_for(sel_index(*v, nv), len) };
+                nodes.push(if *swap { NodeSpec::B(*op, ci, vi) } else { NodeSpec::B(*op, vi, ci) });
+            }
+            for (j, (_, link)) in items.iter().enumerate() {
+                let len = nv + 2 * k + j;
+                let leaf_idx = nv + 2 * (k - 1 - j) + 1;
+                let prev = if j == 0 { sel_for(nv + 1, len) } else { sel_for(len - 1, len) };
+                nodes.push(NodeSpec::B(*link, prev, sel_for(leaf_idx, len)));
+            }
+            DagSpec { nvars, nodes }
+        })
+        .boxed()
+}
+
+/// Extends 8-coordinate points to `nvars` coordinates (coordinate i >= 8 is a
+/// deterministic function of coordinate i % 8 and i), for many-variable programs
+pub fn widen_points(points: &[Vec<Fl>], nvars: usize) -> Vec<Vec<Fl>> {
+    points
+        .iter()
+        .map(|p| {
+            let mut q = p.clone();
+            let base = p.len().max(1);
+            for i in p.len()..nvars {
+                let v = p.get(i % base).map(|f| f.0).unwrap_or(0.5);
+                // keep special values special; shift ordinary ones a little
+                q.push(Fl(if v.is_finite() && v != 0.0 { v + (i / base) as f32 * 0.25 } else { v }));
+            }
+            q
+        })
+        .collect()
 }
 
 pub fn dag(p: DagParams) -> BoxedStrategy<DagSpec> {
